@@ -42,6 +42,15 @@ CHECKS['C01'] = ('model_checking',
          'under *, /, inv, **n (|n|<=8), prod, interp with the validity invariant (1e-9) evaluated on every reached value.',
          'Bounded to the enumerated letters and BFS depth 2 (thorough 3). OA pairs closer than 1e-3 rad are outside (numerically parallel).',
          'DESIGN.md 3/C01')
+CHECKS['C04'] = ('model_checking',
+         'lock-step BFS over product states (reference matrix + one object per representation), plus exhaustive shared-constructor products',
+         'A product state holds the reference matrix and the same motion as SO3, SE3, UnitQuaternion, Twist3 and '
+         'UnitDualQuaternion (2-D: SO2, SE2, Twist2); every transition (compose with a generator on either side, invert) is '
+         'taken by each representation with its own operator and all conversions back to a matrix, pairwise conversions, round '
+         'trips, q == -q and the embeddings are compared with the reference in every state. All shared named constructors '
+         '(Rx Ry Rz RPY Eul AngVec EulerVec OA Exp) are compared across classes over their full argument products.',
+         'Bounded: generator set of ~9 (thorough ~100) motions, depth 2 (thorough 3). UnitDualQuaternion has no inverse; it is re-embedded after inv.',
+         'DESIGN.md 3/C04')
 PENDING = {}
 
 def main():
